@@ -43,12 +43,14 @@ func tmpDirGet() string {
 func versions() [][]ref.Field {
 	by := flowh.ElemByType()
 	f := func(t ref.AType) ref.Field { return ref.Field{ID: by[t], Len: uint16(t.NaturalLen()), Type: t} }
+	// v1/v2 and v3/v4 have the same field count and lengths but different elements: a cache that
+	// judges "unchanged" by shape would keep serving the superseded one
 	return [][]ref.Field{
 		{f(ref.TU64)},
 		{f(ref.TU32), f(ref.TU32)},
-		{f(ref.TU32), f(ref.TU16), f(ref.TU16)},
+		{f(ref.TIPv4), f(ref.TU32)},
 		{f(ref.TU16), f(ref.TU16), f(ref.TU16), f(ref.TU16)},
-		{f(ref.TU8), f(ref.TU8), f(ref.TU16), f(ref.TU32)},
+		{f(ref.TU16), f(ref.TU16), f(ref.TU32)}, // shares a prefix with v3
 	}
 }
 
@@ -309,7 +311,8 @@ func linearizable(ops []opRec, initial map[int]int) (bool, string) {
 				// real-time order: i may come next only if no unused op ended before i started
 				ok := true
 				for j := 0; j < n; j++ {
-					if !used[j] && j != i && os[j].end < os[i].start {
+					// (operations of one thread are in program order; their step stamps may coincide)
+					if !used[j] && j != i && (os[j].end < os[i].start || (os[j].thread == os[i].thread && j < i)) {
 						ok = false
 						break
 					}
@@ -512,6 +515,13 @@ func schedSpace(tier string) mck.Space {
 				}
 			}
 			setObs(strings.Join(o, " "))
+			if os.Getenv("VERIF_DEBUG") != "" {
+				for _, r := range all {
+					fmt.Fprintf(os.Stderr, "op t%d %s k%d v%d [%d,%d] %s\n", r.thread, r.kind, r.key, r.ver, r.start, r.end, r.note)
+				}
+				ok, msg := linearizable(all, initial)
+				fmt.Fprintln(os.Stderr, "linearizable:", ok, msg)
+			}
 			if ok, msg := linearizable(all, initial); !ok {
 				sched.Fail("cache:not-linearizable", msg)
 			}
